@@ -234,7 +234,10 @@ def c11(tier):
     fam = F.fault_family(kinds)
     run.add_mc([d for d in fam if d["fault"]["pos"] not in ("action", "input", "items", "conc", "delay")][::4], ["C11"],
                max_pause=1, replay=True)
-    run.add_jobs(jobs_for(fam, {"pause": 1, "cancel": 1, "max_nodes": sizes(tier, 700, 4000)}, s, ("yaql", "jinja"), tok="visit"))
+    run.add_jobs(jobs_for(fam, {"pause": 1, "cancel": 1, "max_nodes": sizes(tier, 700, 4000)}, s, ("yaql",), tok="visit"))
+    run.add_jobs(jobs_for(fam, {"pause": 1, "max_nodes": sizes(tier, 500, 4000)}, s, ("jinja",), tok="visit"))
+    rend = [d for d in fam if d["fault"]["pos"] in ("action", "input", "items", "conc", "delay")][::2]
+    run.add_jobs(jobs_for(rend, {"rerun": 1, "rerun_tasks": "all", "max_nodes": sizes(tier, 900, 4000)}, s, ("yaql", "jinja")))
     if tier != "quick":
         run.add_jobs(jobs_for(fam, {"lazy": True, "max_nodes": 4000}, s + 1, ("jinja", "yaql"), tok="visit"))
     run.extra["positions"] = list(F.FAULT_POSITIONS)
@@ -324,7 +327,7 @@ def c15(tier):
     run.add_jobs(jobs_for(F.curated() + F.curated_items()[:8], {"rerun": 1, "rerun_tasks": True, "sample": 3,
                                                                 "max_nodes": sizes(tier, 800, 4000)}, s))
     # completeness half: single-fault mutants enumerated by TLC (spec/Inspect.tla)
-    hosts = F.curated()[:12] + F.curated_items()[:4] + F.curated_retry()[:4] + F.graph_family(2700 + s, sizes(tier, 10, 120), nmax=4)
+    hosts = F.curated() + F.curated_items()[:4] + F.curated_retry()[:4] + F.graph_family(2700 + s, sizes(tier, 10, 120), nmax=4)
     faults, res = I.enumerate_faults(hosts, run.tmp)
     run.mc_states += res["distinct"]
     run.mc_transitions += res["states"]
@@ -355,6 +358,8 @@ def c17(tier):
     run.add_jobs(jobs_for(defs, env, s, ("yaql", "jinja")))
     run.add_jobs(jobs_for(F.curated_items() + F.curated_retry() + F.fault_family(("undef",), ("when", "publish", "output")),
                           dict(env, max_nodes=sizes(tier, 1500, 8000)), s))
+    # rerun requests probed in every state (accepted only when completed and for existing executions)
+    run.add_jobs(jobs_for(F.curated(), {"probe_rerun": True, "pause": 1, "cancel": 1, "max_nodes": sizes(tier, 1200, 6000)}, s))
     if tier != "quick":
         run.add_jobs(jobs_for(F.curated(), dict(env, rerun=2, cancel=1), s))
     gs, skipped = G.rerun_groups(run.results, sizes(tier, 30, 300), random.Random(s))
